@@ -672,6 +672,34 @@ impl RHistory {
                 }
             }
         }
+        // C15, promptness: when a whole slice of budget is left over after the flush, every unacknowledged part that was
+        // never transmitted, or whose resend time had elapsed, is in the packets of this flush
+        if !self.is_disc(e) && !was_disc && !self.mons.get(&e).map(|m| m.hostile_in).unwrap_or(false) && budget >= total_payload + 1200 {
+            let unacked = self.world.conn_ref(e).map(|c| c.verif_unacked()).unwrap_or_default();
+            let mut late: Option<(Part, Option<u64>)> = None;
+            {
+                let m = self.mons.get(&e);
+                for (ch, msgs) in &unacked {
+                    let rt = *resend.get(ch).unwrap_or(&0);
+                    for (id, flags) in msgs {
+                        let parts: Vec<Part> = if flags.is_empty() { vec![(*ch, *id, None)] } else { flags.iter().enumerate().filter(|(_, a)| !**a).map(|(i, _)| (*ch, *id, Some(i))).collect() };
+                        for part in parts {
+                            let last = m.and_then(|m| m.last_tx.get(&part).copied());
+                            let due = match last {
+                                None => true,
+                                Some(t) => t != clock && clock - t >= rt,
+                            };
+                            if due && last != Some(clock) {
+                                late = Some((part, last));
+                            }
+                        }
+                    }
+                }
+            }
+            if let Some((part, last)) = late {
+                self.violate("C15", format!("{:?} did not transmit {:?} in this tick although {} bytes of budget were left and {}", e, part, budget - total_payload, match last { None => "it was never transmitted".to_string(), Some(t) => format!("its last transmission was {} ns ago", clock - t) }));
+            }
+        }
         // C09: an unreliable send channel holds nothing after a flush: every queued message was sent or dropped
         if !self.is_disc(e) {
             let mem: Vec<(u8, bool, usize)> = self.world.conn_ref(e).map(|c| c.verif_send_memory()).unwrap_or_default();
